@@ -484,7 +484,7 @@ def structured_coefficient_shell(rng, l, kind, sph=False):
     """generalized shells whose coefficient matrix has special structure: 'permutation' (square, one non-zero per column, not
     diagonal: an uncontracted set listed in another order), 'shared-primitive' (two columns that use the same single primitive),
     'diagonal' (uncontracted), 'triangular'"""
-    k = 3 if kind in ("permutation", "diagonal", "triangular") else 2
+    k = 3 if kind in ("permutation", "diagonal", "triangular", "block-disjoint") else 2
     exps = []
     while len(exps) < k:
         e = core.rand_exp(rng, 0.1, min(core.exp_cap(l), 15.0))
@@ -497,6 +497,12 @@ def structured_coefficient_shell(rng, l, kind, sph=False):
         co = np.diag([c(), c(), c()])
     elif kind == "triangular":
         co = np.array([[c(), c(), c()], [0.0, c(), c()], [0.0, 0.0, c()]])
+    elif kind == "block-disjoint":
+        # several segmented contractions of one angular momentum stored as one shell: every primitive belongs to exactly one column,
+        # one column has two primitives
+        co = np.array([[c(), 0.0], [c(), 0.0], [0.0, c()]])
+        if rng.random() < 0.5:
+            co = co[[0, 2, 1]]
     else:
         co = np.array([[c(), c()], [0.0, 0.0]])
     cen = [core.snap(rng.uniform(-1, 1), 8) for _ in range(3)]
@@ -522,6 +528,37 @@ def nearly_normalised_shell(rng, l, sph=False):
     nc = float(np.asarray(base.copy(sph=False).make().norm_cont).ravel()[0])
     delta = rng.choice([-1, 1]) * rng.uniform(2e-6, 8e-6)
     return base.copy(coeffs=base.coeffs * nc * (1.0 + delta))
+
+
+def near_equal_exponent_pair(rng, la, lb, sph=None):
+    """two shells on different centres whose exponents are pairwise nearly equal (relative difference 2e-6 .. 8e-6: the same tabulated
+    set quoted to six digits, or re-optimised): they are different numbers and must be treated as such"""
+    e1 = core.rand_exp(rng, 1.0, min(core.exp_cap(max(la, lb)), 4.0))
+    e2 = core.rand_exp(rng, 0.3, 0.7)
+    d = [rng.choice([-1, 1]) * rng.uniform(2e-6, 8e-6) for _ in range(2)]
+    ca = [core.snap(rng.uniform(-0.5, 0.5), 8) for _ in range(3)]
+    cb = [ca[0] + core.snap(rng.uniform(0.5, 0.9), 8), ca[1] - core.snap(rng.uniform(0.3, 0.8), 8), ca[2] + core.snap(rng.uniform(0.2, 0.7), 8)]
+    sa = ShellSpec(la, ca, [e1, e2], [[core.rand_coeff(rng)], [core.rand_coeff(rng)]], sph=bool(rng.random() < 0.5) if sph is None else sph)
+    sb = ShellSpec(lb, cb, [e1 * (1 + d[0]), e2 * (1 + d[1])], [[core.rand_coeff(rng)], [core.rand_coeff(rng)]], sph=bool(rng.random() < 0.5) if sph is None else sph)
+    return [sa, sb]
+
+
+def far_diffuse_pair(rng, la, lb, R, tight=False):
+    """two shells with diffuse primitives (exponents 0.02 .. 0.05) 27 .. 35 bohr apart in a general direction: exp(-R^2) underflows
+    although the Gaussian product factor exp(-mu R^2) is 1e-3 .. 1e-7; with `tight` each shell also holds a tight primitive whose
+    product factor with the other tight primitive underflows to exactly 0"""
+    u = np.array([rng.uniform(0.3, 1.0) * rng.choice([-1, 1]) for _ in range(3)])
+    u = u / np.linalg.norm(u) * R
+    ca = [core.snap(rng.uniform(-0.5, 0.5), 8) for _ in range(3)]
+    cb = [float(core.snap(x + y, 8)) for x, y in zip(ca, u)]
+    def one(l, c):
+        exps = [core.snap(rng.uniform(0.02, 0.03), 12), core.snap(rng.uniform(0.035, 0.05), 12)]
+        co = [[core.rand_coeff(rng)], [core.rand_coeff(rng)]]
+        if tight:
+            exps = [core.rand_exp(rng, 9.0, 10.0)] + exps[:1]
+            co = [[abs(core.rand_coeff(rng))], [abs(core.rand_coeff(rng))]]
+        return ShellSpec(l, c, exps, co, sph=bool(rng.random() < 0.5))
+    return [one(la, ca), one(lb, cb)]
 
 
 def structural_families(run, transforms=True, lmax_twins=3, lmax_obj=2, ls_extreme=None, small=False):
@@ -555,7 +592,7 @@ def structural_families(run, transforms=True, lmax_twins=3, lmax_obj=2, ls_extre
         if small:
             specs = specs[:3]
         out.append((lab, specs, None))
-    for k, kind in enumerate(("permutation", "shared-primitive", "diagonal", "triangular")):
+    for k, kind in enumerate(("permutation", "shared-primitive", "diagonal", "triangular", "block-disjoint")):
         for l in ((k % 2,) if (quick or small) else (0, 1, 2)):
             sh = structured_coefficient_shell(rng, l, kind, sph=bool((k + l) % 2))
             if small:
@@ -578,6 +615,13 @@ def structural_families(run, transforms=True, lmax_twins=3, lmax_obj=2, ls_extre
         s1 = ShellSpec(la, c0, [a_] if k else [a_, 0.6], [[1.0]] if k else [[0.7], [0.4]], sph=False)
         s2 = ShellSpec(lb, [x + y for x, y in zip(c0, d_)], [a_], [[1.0]], sph=bool(k == 1))
         out.append(("accidentally vanishing one-dimensional factor (a = %g, R = %g)" % (a_, R_), [s1, s2], None))
+    # exponents that are nearly but not exactly equal on two centres
+    for k, (la, lb) in enumerate(((1, 2), (1, 0)) if not small else ((1, 0),)):
+        out.append(("nearly equal exponents on two centres (relative difference of a few 1e-6)", near_equal_exponent_pair(rng, la, lb), None))
+    # diffuse shells far apart: exp(-R^2) underflows, exp(-mu R^2) does not
+    for k, R_ in enumerate((27.5, 31.0) if (quick or small) else (26.8, 27.5, 29.0, 31.0, 35.0)):
+        la, lb = ((0, 0), (1, 0), (0, 1), (1, 1), (2, 0))[k % 5]
+        out.append(("diffuse shells %.1f bohr apart" % R_, far_diffuse_pair(rng, la, lb, R_), None))
     # coinciding sizes: as many segmented contractions as (Cartesian) components, as many primitives as segments
     for k, (l, sph_) in enumerate(((1, False), (1, True), (0, False)) if not small else ((1, False),)):
         m = (l + 1) * (l + 2) // 2
